@@ -90,7 +90,7 @@ func runC06Reject(k int, rng *Rng) CaseResult {
 	clockNewCase(clockModeFor(cfg))
 	installHooks(stdHooks())
 	w := NewWorld("C06", rng, cfg, caseDir(k, "c06"))
-	w.predict, w.storeWant = true, true
+	w.predict, w.storeWant = true, false
 	defer w.Cleanup()
 	if !w.OpenCreate() {
 		return w.finish(nil, false, nil)
@@ -382,7 +382,7 @@ func runC06Faults(k int, rng *Rng) CaseResult {
 			fsReset("inject", root)
 			installHooks(fsHooks(false))
 			w := NewWorld("C06", &Rng{s: histSeed.s}, cfg, root)
-			w.storeWant = true
+			w.storeWant = false
 			ok := w.OpenCreate()
 			var op faultOp
 			var before, after *Model
